@@ -1,0 +1,189 @@
+//! Verification facade over the crate-private policy pipeline (`--cfg bgpfu_verif` only).
+//!
+//! Plain strings in, plain strings out; everything in between is the crate's own `ReadXml`,
+//! `evaluate`, `compare` and `WriteXml` code.
+#![allow(missing_docs, clippy::missing_errors_doc, clippy::type_complexity)]
+
+use bgpfu::RpslEvaluator;
+use ip::{concrete::PrefixRange, traits::PrefixRange as _, Afi};
+use netconf::message::{rpc::DataReply, ReadXml, WriteXml};
+use quick_xml::{
+    events::Event,
+    name::{Namespace, ResolveResult},
+    NsReader, Writer,
+};
+
+use super::{Candidate, Evaluate, Evaluated, Installed, Name, Policies, Ranges};
+
+const BASE: Namespace<'_> = Namespace(b"urn:ietf:params:xml:ns:netconf:base:1.0");
+
+/// `(name, filter expression, Some((ipv4 ranges, ipv6 ranges)) | None if evaluation failed)`;
+/// ranges are rendered as `prefix,lower,upper`.
+pub type EvaluatedEntry = (String, String, Option<(Vec<String>, Vec<String>)>);
+
+fn read_reply<T>(msg: &str) -> Result<Policies<T>, String>
+where
+    Policies<T>: ReadXml,
+{
+    let mut reader = NsReader::from_str(msg);
+    _ = reader.trim_text(true);
+    let mut this = None;
+    loop {
+        match reader
+            .read_resolved_event()
+            .map_err(|err| format!("{err:?}"))?
+        {
+            (ResolveResult::Bound(ns), Event::Start(tag))
+                if ns == BASE && tag.local_name().as_ref() == b"rpc-reply" =>
+            {
+                this = Some(
+                    DataReply::<Policies<T>>::read_xml(&mut reader, &tag)
+                        .map_err(|err| format!("{err:?}"))?,
+                );
+            }
+            (_, Event::Comment(_)) => continue,
+            (_, Event::Eof) => break,
+            (_, Event::Text(txt)) if &*txt == b"]]>]]>" => break,
+            (_, event) => return Err(format!("unexpected xml event {event:?}")),
+        }
+    }
+    match this {
+        Some(DataReply::Data(policies)) => Ok(policies),
+        Some(DataReply::Errs(errs)) => Err(format!("rpc-error: {errs:?}")),
+        None => Err("missing rpc-reply".to_string()),
+    }
+}
+
+fn fmt_ranges<A: Afi>(ranges: &Ranges<A>) -> Vec<String> {
+    let mut out: Vec<_> = ranges
+        .iter()
+        .map(|range| format!("{},{},{}", range.prefix(), range.lower(), range.upper()))
+        .collect();
+    out.sort();
+    out
+}
+
+fn parse_ranges<A: Afi>(ranges: &[String]) -> Result<Ranges<A>, String> {
+    ranges
+        .iter()
+        .map(|s| {
+            s.parse::<PrefixRange<A>>()
+                .map_err(|err| format!("bad range '{s}': {err}"))
+        })
+        .collect()
+}
+
+/// Parse a `<get-config>` reply for the running configuration into `(name, filter-expr)` pairs.
+pub fn parse_candidates(reply: &str) -> Result<Vec<(String, String)>, String> {
+    let policies = read_reply::<Candidate>(reply)?;
+    let mut out: Vec<_> = policies
+        .map
+        .iter()
+        .map(|(name, candidate)| (name.to_string(), candidate.filter_expr.to_string()))
+        .collect();
+    out.sort();
+    Ok(out)
+}
+
+/// Parse a `<get-config>` reply for the ephemeral instance into `(name, ipv4, ipv6)` triples.
+pub fn parse_installed(reply: &str) -> Result<Vec<(String, Vec<String>, Vec<String>)>, String> {
+    let policies = read_reply::<Installed>(reply)?;
+    let mut out: Vec<_> = policies
+        .map
+        .iter()
+        .map(|(name, installed)| {
+            (
+                name.to_string(),
+                fmt_ranges(&installed.ipv4),
+                fmt_ranges(&installed.ipv6),
+            )
+        })
+        .collect();
+    out.sort();
+    Ok(out)
+}
+
+fn describe(evaluated: &Policies<Evaluated>) -> Vec<EvaluatedEntry> {
+    let mut out: Vec<_> = evaluated
+        .map
+        .iter()
+        .map(|(name, item)| {
+            (
+                name.to_string(),
+                item.filter_expr.to_string(),
+                item.ranges
+                    .as_ref()
+                    .map(|(ipv4, ipv6)| (fmt_ranges(ipv4), fmt_ranges(ipv6))),
+            )
+        })
+        .collect();
+    out.sort();
+    out
+}
+
+fn build_evaluated(entries: &[EvaluatedEntry]) -> Result<Policies<Evaluated>, String> {
+    let map = entries
+        .iter()
+        .map(|(name, expr, ranges)| {
+            let filter_expr = expr
+                .parse()
+                .map_err(|err| format!("bad filter expression '{expr}': {err}"))?;
+            let ranges = ranges
+                .as_ref()
+                .map(|(ipv4, ipv6)| Ok::<_, String>((parse_ranges(ipv4)?, parse_ranges(ipv6)?)))
+                .transpose()?;
+            Ok((
+                Name::new(name),
+                Evaluated {
+                    filter_expr,
+                    ranges,
+                },
+            ))
+        })
+        .collect::<Result<_, String>>()?;
+    Ok(Policies { map })
+}
+
+fn render(evaluated: &Policies<Evaluated>, installed: &Policies<Installed>) -> Result<Vec<String>, String> {
+    evaluated
+        .compare(installed)
+        .inner
+        .iter()
+        .map(|update| {
+            let mut buf = Vec::new();
+            update
+                .write_xml(&mut Writer::new(&mut buf))
+                .map_err(|err| format!("{err:?}"))?;
+            String::from_utf8(buf).map_err(|err| format!("{err:?}"))
+        })
+        .collect()
+}
+
+/// Compare evaluated policies with the installed ones and render every update payload.
+pub fn plan(installed_reply: &str, evaluated: &[EvaluatedEntry]) -> Result<Vec<String>, String> {
+    let installed = read_reply::<Installed>(installed_reply)?;
+    let evaluated = build_evaluated(evaluated)?;
+    render(&evaluated, &installed)
+}
+
+/// Parse the candidates of a running-configuration reply and evaluate them against an IRRd.
+pub fn evaluate(candidates_reply: &str, host: &str, port: u16) -> Result<Vec<EvaluatedEntry>, String> {
+    let candidates = read_reply::<Candidate>(candidates_reply)?;
+    let mut evaluator = RpslEvaluator::new(host, port).map_err(|err| format!("{err:#}"))?;
+    Ok(describe(&candidates.evaluate(&mut evaluator)))
+}
+
+/// The data path of `Updater::run` without the NETCONF session: fetch replies in, payloads out.
+pub fn run_plan(
+    candidates_reply: &str,
+    installed_reply: &str,
+    host: &str,
+    port: u16,
+) -> Result<(Vec<EvaluatedEntry>, Vec<String>), String> {
+    let candidates = read_reply::<Candidate>(candidates_reply)?;
+    let installed = read_reply::<Installed>(installed_reply)?;
+    let mut evaluator = RpslEvaluator::new(host, port).map_err(|err| format!("{err:#}"))?;
+    let evaluated = candidates.evaluate(&mut evaluator);
+    let payloads = render(&evaluated, &installed)?;
+    Ok((describe(&evaluated), payloads))
+}
